@@ -124,6 +124,27 @@ def run(tier, v):
             v.violation({"family": fam, "k": e["k"], "frame": vlib_hex(e["frame"]), "expected": e["exp"], "observed": got, "matches_deviations": hit})
         if seen != len(exp):
             raise vlib.ToolError("harness answered %d of %d vectors (%s)" % (seen, len(exp), fam))
+        if fam == "ttl":
+            # the same frames through the unified analyzer (HuginnNet::analyze_tcp, every protocol enabled): for every segment its TCP
+            # observation, rendered signature and MTU are those of the TCP analyzer (judged above) -- whatever the payload looks like
+            ureq, uout = os.path.join(wd, "uni.req"), os.path.join(wd, "uni.out")
+            ids = sorted(exp)
+            vlib.write_ndjson(ureq, [{"id": 0, "crate": "uni_direct", "frames": [bytes(exp[i]["frame"]).hex() for i in ids], "matcher": True, "cfg": {}}])
+            vlib.run_hv("ana", ureq, uout, env={"HV_PCAP_DIR": os.path.join(wd, "pcap")})
+            tcp_by_id = {o["id"]: o["out"][0] for o in vlib.read_ndjson(out)}
+            for o in vlib.read_ndjson(uout):
+                if "panic" in o:
+                    v.violation({"family": fam, "entry": "unified analyzer", "observed": "panic: " + o["panic"]})
+                    continue
+                for i, u in zip(ids, o["results"]):
+                    t = tcp_by_id[i]
+                    if t["r"] != "ok":
+                        continue
+                    n_cases += 1
+                    proj = lambda x: {k: (None if x.get(k) is None else {f: x[k].get(f) for f in (("obs", "text") if k != "mtu" else ("mtu", "link"))}) for k in ("syn", "syn_ack", "mtu")}
+                    if proj(u) != proj(t["res"]):
+                        v.violation({"family": fam, "k": exp[i]["k"], "frame": vlib_hex(exp[i]["frame"]), "entry": "unified analyzer (HuginnNet::analyze_tcp)",
+                                     "tcp_analyzer_reports": proj(t["res"]), "unified_analyzer_reports": proj(u)})
     if not samples:
         samples.append({"note": "no sample drawn"})
     # ---- the rendered signature: every distinct (observation, text) pair seen above, judged by TLC against P0fVocab!PrintTcpSig
